@@ -7,7 +7,8 @@
 (*                                                                         *)
 (* A relay record lives on a tunnel (peer = the authenticated owner of the *)
 (* tunnel) and names the overlay address it relays for / through (addr):   *)
-(*    [peer, addr, type \in {"terminal","forwarding"}, state, lidx, ridx]  *)
+(*    [peer, tun, addr, type \in {"terminal","forwarding"}, state, lidx,   *)
+(*     ridx]   (tun tells apart several tunnels with the same peer)        *)
 (* A step is one authenticated datagram handled by node n (sender s known  *)
 (* from the tunnel that authenticated it), a local send that starts        *)
 (* relays, or the loss of a tunnel.                                        *)
@@ -19,14 +20,14 @@ CONSTANTS Nodes,        \* node names (= certificate names)
           AmRelay       \* [Nodes -> BOOLEAN] relay.am_relay
 
 States == {"requested", "established", "peerrequested", "disestablished"}
-Rec == [peer : Nodes, addr : STRING, type : {"terminal", "forwarding"}, state : States, lidx : Nat, ridx : Nat]
+Rec == [peer : Nodes, tun : Nat, addr : STRING, type : {"terminal", "forwarding"}, state : States, lidx : Nat, ridx : Nat]
 
 VARIABLES recs,      \* recs[n] : set of relay records of node n
           tuns       \* tuns[n] : set of peers n has a tunnel with
 
 vars == <<recs, tuns>>
 
-Key(r) == <<r.peer, r.addr>>
+Key(r) == <<r.peer, r.addr, r.tun>>
 Keys(S) == {Key(r) : r \in S}
 ByKey(S, k) == CHOOSE r \in S : Key(r) = k
 OwnerOf(a) == CHOOSE n \in Nodes : AddrOf[n] = a
@@ -54,7 +55,7 @@ ChangeOK(n, s, old, new, k) ==
     /\ IF k \in Keys(old) /\ k \in Keys(new) THEN ValidTransition(ByKey(old, k), ByKey(new, k))
        ELSE IF k \in Keys(new) THEN /\ k[1] \in tuns[n]                     \* created on a live tunnel
                                      /\ (ByKey(new, k).type = "forwarding" => AmRelay[n])
-                                     /\ k[2] # AddrOf[n] /\ k[2] # AddrOf[k[1]]   \* never to itself, never back to the same peer
+                                     /\ k[2] # AddrOf[n]                       \* never a relay to itself
        ELSE FALSE                                                            \* records disappear only with their tunnel
 
 UniqueIdx(S) == \A a, b \in S : (a # b) => a.lidx # b.lidx
@@ -65,18 +66,24 @@ MayForward(n, s, k, S) ==
     /\ \E r \in S : r.peer = k /\ r.addr = AddrOf[s] /\ r.type = "forwarding" /\ r.state = "established"   \* onward leg
     /\ \E r \in S : r.peer = s /\ r.addr = AddrOf[k] /\ r.type = "forwarding"                                  \* negotiated by s
 
-\* an authenticated datagram from s handled by n: control messages may change records, relayed packets may be forwarded
-Recv(n, s, typ, new, fwd) ==
+\* an authenticated datagram from s handled by n: control messages may change records, relayed packets may be
+\* forwarded; a relayed packet that carries a valid handshake may bring a disestablished record of that relay back
+\* and may create a tunnel (newtuns)
+Recv(n, s, typ, new, fwd, newtuns) ==
     /\ s \in tuns[n]
     /\ LET old == recs[n]
            changed == {k \in Keys(old) \cup Keys(new) : k \notin Keys(old) \/ k \notin Keys(new) \/ ByKey(old, k) # ByKey(new, k)}
-       IN /\ (typ # "control" => changed = {})
-          /\ \A k \in changed : ChangeOK(n, s, old, new, k)
+       IN /\ (typ \notin {"control", "relay"} => changed = {})
+          /\ (typ = "control" => \A k \in changed : ChangeOK(n, s, old, new, k))
+          /\ (typ = "relay" => \A k \in changed : /\ k[1] = s /\ k \in Keys(old) /\ k \in Keys(new)
+                                                    /\ ByKey(old, k).state = "disestablished" /\ ByKey(new, k).state = "established"
+                                                    /\ ByKey(old, k).lidx = ByKey(new, k).lidx /\ ByKey(old, k).type = ByKey(new, k).type)
           /\ UniqueIdx(new)
           /\ (typ # "relay" => fwd = {})
           /\ \A k \in fwd : MayForward(n, s, k, old)
+          /\ IF typ = "relay" THEN tuns[n] \subseteq newtuns ELSE newtuns = tuns[n]
     /\ recs' = [recs EXCEPT ![n] = new]
-    /\ UNCHANGED tuns
+    /\ tuns' = [tuns EXCEPT ![n] = newtuns]
 
 \* something not authenticated by a tunnel (handshake, recv_error, garbage) or a local inside packet: relay records may
 \* only be created by the node itself starting relays (state requested, terminal) and nothing is forwarded
@@ -89,7 +96,7 @@ Local(n, new, newtuns) ==
        IN /\ \A r \in new : \/ r \in kept \/ r \in expected
                             \/ (Key(r) \in Keys(kept) /\ ValidTransition(ByKey(kept, Key(r)), r) /\ r.state # "established")
                             \/ (Key(r) \notin Keys(kept) /\ r.peer \in newtuns /\ r.state = "requested" /\ r.type = "terminal"
-                                /\ r.addr # AddrOf[n] /\ r.addr # AddrOf[r.peer])
+                                /\ r.addr # AddrOf[n])
           /\ \A r \in kept : Key(r) \in Keys(new)                 \* records disappear only with their tunnel
           /\ \A r \in new : r.peer \in newtuns
           /\ UniqueIdx(new)
@@ -98,12 +105,12 @@ Local(n, new, newtuns) ==
 
 \* MC: a small closed world: the environment proposes any single-record change or tunnel change and the
 \* permission rules decide; the invariants below must hold in everything they let through
-RecSmall == {r \in [peer : Nodes, addr : {AddrOf[x] : x \in Nodes}, type : {"terminal", "forwarding"}, state : States,
-                    lidx : 1..3, ridx : 0..1] : TRUE}
+RecSmall == {r \in [peer : Nodes, tun : {1}, addr : {AddrOf[x] : x \in Nodes}, type : {"terminal", "forwarding"}, state : States,
+                    lidx : 1..2, ridx : {0}] : TRUE}
 Next == \E n \in Nodes :
            \/ \E s \in tuns[n], r \in RecSmall, typ \in {"control", "relay", "data"}, fwd \in SUBSET (Nodes \ {n}) :
-                 Recv(n, s, typ, {x \in recs[n] : Key(x) # Key(r)} \cup {r}, fwd)
-           \/ \E s \in tuns[n], typ \in {"control", "relay", "data"}, fwd \in SUBSET (Nodes \ {n}) : Recv(n, s, typ, recs[n], fwd)
+                 Recv(n, s, typ, {x \in recs[n] : Key(x) # Key(r)} \cup {r}, fwd, tuns[n])
+           \/ \E s \in tuns[n], typ \in {"control", "relay", "data"}, fwd \in SUBSET (Nodes \ {n}) : Recv(n, s, typ, recs[n], fwd, tuns[n])
            \/ \E p \in Nodes \ {n} :
                  LET newtuns == IF p \in tuns[n] THEN tuns[n] \ {p} ELSE tuns[n] \cup {p}
                      kept == {r \in recs[n] : r.peer \in newtuns}
@@ -116,6 +123,6 @@ Spec == Init /\ [][Next]_vars
 (* C39 as state invariants of any behaviour the permission specification accepts *)
 OnlyRelaysForward == \A n \in Nodes : \A r \in recs[n] : r.type = "forwarding" => AmRelay[n]
 RecordsOnLiveTunnels == \A n \in Nodes : \A r \in recs[n] : r.peer \in tuns[n]
-NotToSelf == \A n \in Nodes : \A r \in recs[n] : r.addr # AddrOf[n] /\ r.addr # AddrOf[r.peer]
+NotToSelf == \A n \in Nodes : \A r \in recs[n] : r.addr # AddrOf[n]
 IndexesUnique == \A n \in Nodes : UniqueIdx(recs[n])
 =============================================================================
